@@ -400,6 +400,38 @@ def loadHaunted (cfg : Cfg) (pp : Option Path) (n : Node) : Except Err Node :=
   | .error e => .error e
   | .ok _ => load cfg (save pp n)
 
+/-- `Workflow._rebuild_data_io` (run by `Workflow.replace_child`) leaves a VIEW of the children's exposed
+channels in `self._inputs` (`view`, in panel order).  The view sits in the workflow's `__dict__` before
+the children, so the pickler meets every listed channel before its owner: the owner is built — and its
+`__setstate__` re-forges its value links — INSIDE the state of the first of its channels the view
+lists, and only afterwards is that channel's own state applied, `_value_receiver = None` included.
+The value link of that one input is gone. -/
+def wipeChild (view : List Addr) : Node → Node
+  | .mk c ch dg sg =>
+    match (view.find? fun a => a.1 = c.label).map (·.2) with
+    | some x => .mk { c with inLinks := c.inLinks.filter fun l => l.1 ≠ x } ch dg sg
+    | none => .mk c ch dg sg
+
+def wipeView (view : List Addr) : Node → Node
+  | .mk c ch dg sg => .mk c (ch.map (wipeChild view)) dg sg
+
+/-- pickling a workflow that carries such a view -/
+def loadViewed (cfg : Cfg) (view : List Addr) (n : Node) : Except Err Node :=
+  match load cfg (save none n) with
+  | .error e => .error e
+  | .ok g => .ok (wipeView view g)
+
+mutual
+/-- can the graph be pickled at all?  `For._input_value_links` reads `c.value_receiver.owner` of EVERY
+input; an input whose link is gone (see `wipeView`) makes `__getstate__` raise (`Macro` skips such inputs) -/
+def dumpable : Node → Bool
+  | .mk c ch _ _ =>
+    (c.kind != .forLoop || (labelsOf c.ins).all fun x => (lookupLink c.inLinks x).isSome) && dumpableL ch
+def dumpableL : List Node → Bool
+  | [] => true
+  | n :: ns => dumpable n && dumpableL ns
+end
+
 /-! ## observation -/
 
 /-- one line per node: where it is, its record (live executors are not state), every child
